@@ -63,3 +63,19 @@ def exact_size(spec, prefix=None):
         return r
     fs = progdefs.parse_spec(spec if prefix is None else with_prefix(spec, *prefix))
     return unit(fs)
+
+ATOMS = ['2212', '2192', '279E', '00D7', '00F7', '00B7', '22C5', '00B2', '207B', '2264', '2265', '2260', '2A75', '2026']
+ALPHA = '()[]<>=?&|*+/^,@-!:.; \n\t0123456789"#'
+
+def tokenizer_job(tier):
+    pats = ['a', 'a a']
+    for u in ATOMS:
+        pats += ['U+%s a' % u, 'a U+%s' % u]
+    if tier == 'thorough':
+        pats += ['U+%04X a a' % ord(c) for c in ALPHA]
+        for u in ATOMS: pats += ['U+%s a a' % u, 'a U+%s a' % u, 'a a U+%s' % u]
+    cases = [{'id': 'tok%d' % i, 'label': 'text pattern ' + p, 'cfg': {0: p}} for i, p in enumerate(pats)]
+    def inputs(rnd, case):
+        return {'u%d' % i: ord(rnd.choice(ALPHA)) for i in range(4)}
+    return {'entry': 'h_c08_tokenizer', 'cases': cases, 'opts': {'mode': 'replay', 'max_paths': 400000, 'instr_budget': 50_000_000},
+            'expect_covers': ['c08-tokenizer-returned', 'c08-tokenizer-reference-agrees-on-accept'], 'selftest_inputs': inputs}
